@@ -30,7 +30,7 @@ def run(tier, rep):
         mode = ("MCS", "GENERATIONAL", "TOPOLOGICAL")[(i + sd) % 3]
         for j in range(0, len(cs), 4):
             comp.append(dict(src=s, mode=mode, prune=bool(i % 2), combos=cs[j : j + 4], eps=[0, 1] if (full and j == 0) else [i % 2]))
-    with Pool() as pool:
+    with Pool(maxtasks=8) as pool:
         r1 = list(pool.imap("vf.compiled_tasks", "c13_threaded_task", th))
         r2 = list(pool.imap("vf.compiled_tasks", "c13_compiled_task", comp))
     _collect(rep, r1, "threaded")
